@@ -48,7 +48,38 @@ def pool():
         if where in ("always", "outside-class", "always-global"):
             out.append(("bad", "int before;\n" + text + "\nint after;\n"))
     out += [("bad", "struct S { int x; "), ("bad", "namespace N {"), ("bad", "template <"), ("bad", "int x = 3 @ 4;\n"), ("bad", "\n\n  int `q;")]
+    # one malformed input per 'expected ...' site family: the error text must not depend on anything but the input
+    for t in ("using = int;", "using ;", "namespace 1 {}", "enum class 5;", "template <typename T> 5;", "typedef ;", "struct S : 5 {};", "void f(int x = );",
+              "struct S { friend; };", "int operator;", "static_assert;", "extern \"C\" 5", "alignas;", "decltype;", "int x[;", "template <5> int x;",
+              "template <class T> concept 5;", "using namespace ;", "namespace a = ;", "struct S { public };", "__declspec;", "void f() throw;", "enum E { 1 };",
+              "template <typename T> requires 5 void f();", "struct S final 5;", "void f(int) -> ;", "int x : ;", "class A : public { };"):
+        out.append(("bad", t))
+    if have_pcpp():
+        out += [("ok", PCPP_MARK + "int y;"), ("ok", PCPP_MARK + "#define A 1\nint z = A;\n"), ("ok", PCPP_MARK + "#endif\nint x;\n"),
+                ("ok", PCPP_MARK + "#if 1\nint q;\n"), ("ok", PCPP_MARK + "#define F(a, b) a\nint w = F(1);\n"), ("ok", PCPP_MARK + "#include \"missing.h\"\nint v;\n")]
     return out
+
+
+PCPP_MARK = "/*pcpp*/"
+
+
+def have_pcpp():
+    try:
+        import pcpp  # noqa
+
+        return True
+    except ImportError:
+        return False
+
+
+def options_for(src):
+    """inputs that start with the marker comment are parsed through the pcpp preprocessor hook"""
+    if not src.startswith(PCPP_MARK):
+        return None
+    from cxxheaderparser.options import ParserOptions
+    from cxxheaderparser.preprocessor import make_pcpp_preprocessor
+
+    return ParserOptions(preprocessor=make_pcpp_preprocessor())
 
 
 def outcome(src, filename="in.h"):
@@ -56,7 +87,7 @@ def outcome(src, filename="in.h"):
     from cxxheaderparser.errors import CxxParseError
 
     try:
-        return "R:" + repr(parse_string(src, filename=filename))
+        return "R:" + repr(parse_string(src, filename=filename, options=options_for(src)))
     except CxxParseError as e:
         return "E:" + str(e)
     except Exception as e:  # noqa
@@ -73,14 +104,16 @@ print(json.dumps(outcome(P[i][1], "in%%d.h" %% i)))
 '''
 
 
-def fresh_baselines(n):
-    """outcome of pool[i] as the very first parse of a fresh interpreter (one child process per input)"""
+def fresh_baselines(n, hashseed="1"):
+    """outcome of pool[i] as the very first parse of a fresh interpreter (one child process per input) with the given PYTHONHASHSEED"""
     import concurrent.futures as cf
+    import os
 
     code = FRESH_SNIPPET % ROOT
+    env = dict(os.environ, PYTHONHASHSEED=str(hashseed))
 
     def one(i):
-        r = subprocess.run([sys.executable, "-c", code, str(i)], capture_output=True, text=True, timeout=120)
+        r = subprocess.run([sys.executable, "-c", code, str(i)], capture_output=True, text=True, timeout=120, env=env)
         if r.returncode != 0:
             raise HarnessError(f"fresh-interpreter child failed for input {i}: {r.stderr[-400:]}")
         return json.loads(r.stdout.strip().splitlines()[-1])
@@ -213,10 +246,14 @@ def reentrant_judge(i, j):
         setattr(V, name, wrap(name))
     v = V()
     try:
-        CxxParser(f"in{i}.h", P[i][1], v, None).parse()
+        opts = options_for(P[i][1])
+        content = P[i][1] if opts is None else opts.preprocessor(f"in{i}.h", P[i][1])
+        CxxParser(f"in{i}.h", content, v, opts).parse()
         outer = "R:" + repr(v.data)
     except CxxParseError as e:
         outer = "E:" + str(e)
+    except Exception as e:  # noqa
+        outer = f"X:{type(e).__name__}:{e}"
     for k, got in enumerate(inner):
         if got != base[j]:
             return f"input {j} parsed from inside callback #{k} of the parse of input {i} differs from its stand-alone outcome"
@@ -298,8 +335,24 @@ def run(tier):
               "the parser runs concretely per explored choice; the solver contributes the exhaustive exploration of the (A, B) space and the completeness verdict",
               "finger print = structural value of everything reachable (depth <= 6) from module-level and class-level attributes of the package, incl. PlyLexer._lexer")
     ck.out_of_scope("histories longer than two parses other than through the frame condition", "interleavings of threads")
-    base = fresh_baselines(len(P))
-    ck.traces += len(P)
+    base = fresh_baselines(len(P), "1")
+    seeds = ("2", "3") if tier == "quick" else ("2", "3", "4", "5", "6", "7", "8")
+    seed_dep = set()
+    for sd in seeds:
+        other = fresh_baselines(len(P), sd)
+        seed_dep |= {j for j in range(len(P)) if other[j] != base[j]}
+    ck.traces += len(P) * (1 + len(seeds))
+    ck.sub("(S) the outcome in a fresh interpreter does not depend on the interpreter's string-hash seed", "replay", "holds" if not seed_dep else "flagged",
+           inputs=len(P), seeds=1 + len(seeds), differing=len(seed_dep))
+    for j in sorted(seed_dep)[:3]:
+        body = ("from vf.props import c15\n" f"j = {j}\nouts = set(c15.fresh_baselines(len(c15.pool()), sd)[j] for sd in {('1',) + seeds!r})\n"
+                "print(outs)\nsys.exit(1 if len(outs) > 1 else 0)\n")
+        pth = ck.write_replay(body)
+        ok, out = ck.run_replay(pth, timeout=900)
+        if not ok:
+            raise HarnessError(f"hash-seed dependence of input {j} did not reproduce: {out[-300:]}")
+        ck.violation(f"(hash seed) the outcome of input {j} ({P[j][1][:60]!r}) differs between fresh interpreters with different PYTHONHASHSEED: {out.strip()[:300]}", pth,
+                     key=dict(kind="hashseed"))
     fd, basefile = tempfile.mkstemp(prefix="vfc15_", suffix=".json")
     with os.fdopen(fd, "w") as fp:
         json.dump(base, fp)
@@ -322,9 +375,9 @@ def run(tier):
     try:
         for name, res, fn in (("frame", rf, None), ("history", rh, history_judge), ("reentrant", rr, reentrant_judge)):
             seen = 0
-            if fn is not None and any(v["key"]["kind"] == "frame" for v in ck.violations):
+            if fn is not None and any(v["key"]["kind"] in ("frame", "hashseed") for v in ck.violations):
                 if res.counterexamples:
-                    ck.sample(dict(note=f"{len(res.counterexamples)} ({name}) counterexamples not replayed: the frame condition is already violated, so worker processes carried corrupted shared state"))
+                    ck.sample(dict(note=f"{len(res.counterexamples)} ({name}) counterexamples not replayed: the frame condition or hash-seed independence is already violated, so worker processes differ from the baseline interpreter for that reason"))
                 continue
             for shard, args, kw, msg in res.counterexamples:
                 vals = list(shard) + list(args)
